@@ -5,6 +5,8 @@ CONSTANTS
   TemplateHasQ = FALSE
   H = 2
   LensKind = "one"
+  WithReload = FALSE
+  ReloadBumpsVersion = TRUE
   WithScroll = FALSE
   DelayedSetsVersion <- TreeDelayedSetsVersion
 SPECIFICATION Spec
